@@ -1,5 +1,5 @@
 From Coq Require Extraction ExtrOcamlBasic.
-From GV Require Import Common.Outcome C19.Model C19.Run C19.Diag.
+From GV Require Import Common.Outcome C19.Model C19.Run C19.Diag C19.FedModel C19.FedRun.
 Extraction Language OCaml.
-Extraction "model.ml" run_case diag_case spanned_case on_line_case
+Extraction "model.ml" run_case diag_case spanned_case on_line_case diag_spans_case lexer_case
   row_indent_cols row_under_cols line_row_indent_cols seg_cols corpus_width.
